@@ -46,7 +46,11 @@ try:
         other = wt.controldir.sprout(od).open_workingtree()
         apply(od, other, oc); other_state = state(od, other)
         apply(d, wt, tc); this_state = state(d, wt)
-        wt.merge_from_branch(other.branch)
+        try:
+            wt.merge_from_branch(other.branch)
+        except Exception as e:  # noqa
+            if type(e).__name__ != "PointlessMerge":
+                raise
         merged = state(d, wt)
         conflicts = list(wt.conflicts())
         if oc == "none" and (merged != this_state or conflicts):
